@@ -167,54 +167,53 @@ def run(F, R, tier):
     # ------------------------------------------------------------------ R2 issuer signature path
     r2 = R.rule("C16-R2", "T2+T6", "verify_signature: decode ✓, parse_jwk ✓ (C02-R3), verify_signature_raw ✓, disclosure decoding ✓ over the verified claims, try_into_credential ✓ and issuer == method_id.did() dominate Ok; validate_credential then runs validate_decoded_credential")
     fn = SV + "::verify_signature"
-    h = F.hir(fn)
-    if r2.anchor(h, fn):
-        env = H.Env(h)
-        L.require_tried_before_success(r2, F, fn, [
-            ("decode", V + "::decode"), ("parse_jwk", V + "::parse_jwk"), ("verify_signature_raw", V + "::verify_signature_raw"),
-            ("SdObjectDecoder::decode", re.compile(r"SdObjectDecoder::decode$")), ("try_into_credential", re.compile(r"CredentialJwtClaims::try_into_credential$")), ("extract_issuer", U + "::extract_issuer")])
-        for pat, lab in ((V + "::parse_jwk", "parse_jwk"), (V + "::verify_signature_raw", "verify_signature_raw"), (re.compile(r"SdObjectDecoder::decode$"), "SdObjectDecoder::decode")):
-            L.mir_success_dominates(r2, F, fn, pat, lab)
-        tree, infos = L.exit_infos(h)
-        for e in infos:
-            if not L.is_success_exit(e):
+    if r2.anchor(F.hir(fn), fn):
+        OPQ = (r"JwtCredentialValidator::(decode|parse_jwk|verify_signature_raw)$|serde_json::de::from_slice$|SdObjectDecoder::decode$|FromJson::from_json$|from_json$|"
+               r"try_into_credential$|extract_issuer$|DIDUrl::did$|alloc::fmt::format$|Value::as_object$")
+        tab = SR.Table(F, fn, opaque=OPQ, rule=r2, max_paths=6000)
+        CREDP = SR.param("credential")
+        n = 0
+        for q in tab.ok():
+            n += 1
+            def one(pat, label):
+                es = [e for e in q.calls(pat) if q.succeeded(e) is True]
+                if not r2.require(len(es) >= 1, (fn, "missing-before-success", label), "an accepting path has no successful %s" % label):
+                    return None
+                return es[-1]
+            dec = one(r"JwtCredentialValidator::decode$", "decode")
+            pj = one(r"JwtCredentialValidator::parse_jwk$", "parse_jwk")
+            raw = one(r"JwtCredentialValidator::verify_signature_raw$", "verify_signature_raw")
+            sdd = one(r"SdObjectDecoder::decode$", "SdObjectDecoder::decode")
+            tic = one(r"try_into_credential$", "try_into_credential")
+            exi = one(r"extract_issuer$", "extract_issuer")
+            if None in (dec, pj, raw, sdd, tic, exi):
                 continue
-            eq = False
-            for c in e.conds:
-                if c[0] != "if":
-                    continue
-                rel = H.relation(c[1], env, lambda o: o == {("call", U + "::extract_issuer")}, lambda o: bool(o) and all(x[0] == "call" and x[1] == V + "::parse_jwk" for x in o), accessors=ACC)
-                if rel and ((rel == "Ne" and c[2] is False) or (rel == "Eq" and c[2] is True)):
-                    eq = True
-                    r2.site("Ok guarded by issuer_id == method_id.did()", H.strip(c[1]).get("sp"))
+            item = ("payload", dec.result.t, "Ok", 0)
+            r2.require(SR.derives(dec.args[0], SR.fld("jwt", base=CREDP)), (fn, "decode-arg"), "the token decoded is not credential.jwt: %r" % (dec.args[0],))
+            r2.require(sym.term(pj.args[0]) == item and sym.term(pj.args[1]) == SR.param("trusted_issuers") and sym.term(pj.args[2]) == SR.param("options"), (fn, "parse_jwk-args"),
+                       "parse_jwk is not given (decoded item, trusted_issuers, options)")
+            pjp = ("payload", pj.result.t, "Ok", 0)
+            r2.require(sym.term(raw.args[0]) == item, (fn, "raw-item"), "the item verified is not the decoded SD-JWT")
+            r2.require(SR.derives(raw.args[1], pjp) and sym.term(raw.args[1]) == ("field", pjp, "0"), (fn, "raw-key"), "the verifying key is not the one parse_jwk resolved: %r" % (raw.args[1],))
+            r2.require(sym.term(raw.args[2]) == SR.fld("0"), (fn, "raw-verifier"), "the validator's own verifier is not used")
+            verified = ("payload", raw.result.t, "Ok", 0)
+            r2.require(sym.term(sdd.args[0]) == SR.fld("1"), (fn, "sd-decoder"), "the configured SdObjectDecoder is not used")
+            r2.require(SR.derives(sdd.args[1], ("field", verified, "claims")), (fn, "sd-claims"), "disclosures are not decoded into the *verified* claims: %s" % sym.fmt(sym.term(sdd.args[1]))[:160])
+            r2.require(SR.derives(sdd.args[2], SR.fld("disclosures", base=CREDP)), (fn, "sd-disclosures"), "the disclosures decoded are not the supplied ones")
+            r2.require(SR.derives(tic.args[0], sdd.result.t), (fn, "credential-source"), "the credential is not built from the disclosed, verified claims")
+            credv = ("payload", tic.result.t, "Ok", 0)
+            r2.require(sym.term(exi.args[0]) == credv, (fn, "issuer-of"), "the issuer extracted is not that of the reconstructed credential")
+            mid = ("field", pjp, "1")
+            eq = any(a[0] == "eq" and c is True and any(SR.derives(x, exi.result.t) for x in (a[1], a[2])) and any(x[:1] == ("call",) and x[1].endswith("DIDUrl::did") and x[2] == (mid,) for x in (a[1], a[2]))
+                     for (a, c, _, _) in q.decisions)
             r2.require(eq, (fn, "issuer-eq-method-did"), "Ok is reachable without `issuer == method_id.did()` having been established")
-        for c in H.calls(h, V + "::verify_signature_raw"):
-            o = [H.origins(x, env) for x in c["args"]]
-            r2.site("verify_signature_raw(item ← %s, key ← %s, verifier ← %s)" % tuple(sorted(map(str, x)) for x in o), c["sp"])
-            r2.require(o[0] == {("call", V + "::decode")}, (fn, "raw-item"), "the item verified is not the decoded SD-JWT")
-            r2.require(only(o[1], "call", V + "::parse_jwk"), (fn, "raw-key"), "the verifying key is not the one parse_jwk resolved")
-            r2.require(o[2] == {("param", "self", "0")}, (fn, "raw-verifier"), "the validator's own verifier is not used")
-        for c in H.calls(h, V + "::decode"):
-            oo = H.origins(c["args"][0], env, extra=re.compile(r"as_str$"))
-            r2.require(oo == {("param", "credential", "jwt")}, (fn, "decode-arg"), "the token decoded is not credential.jwt: %s" % sorted(map(str, oo)))
-        for c in H.calls(h, V + "::parse_jwk"):
-            o = [H.origins(x, env) for x in c["args"]]
-            r2.require(o[0] == {("call", V + "::decode")} and o[1] == {("param", "trusted_issuers")} and o[2] == {("param", "options")}, (fn, "parse_jwk-args"), "parse_jwk is not given (decoded, trusted_issuers, options)")
-        for c in H.calls(h, re.compile(r"SdObjectDecoder::decode$")):
-            a = H.call_args(c)
-            o1 = H.origins(a[1], env, extra=SEE)
-            o2 = H.origins(a[2], env)
-            r2.site("disclosures decoded over %s with %s" % (sorted(map(str, o1)), sorted(map(str, o2))), c["sp"])
-            r2.require(o1 == {("call", V + "::verify_signature_raw", "claims")}, (fn, "sd-claims"), "disclosures are not decoded into the *verified* claims: %s" % sorted(map(str, o1)))
-            r2.require(o2 == {("param", "credential", "disclosures")}, (fn, "sd-disclosures"), "the disclosures decoded are not the supplied ones")
-            r2.require(H.origins(a[0], env) == {("param", "self", "1")}, (fn, "sd-decoder"), "the configured SdObjectDecoder is not used")
-        for c in H.calls(h, re.compile(r"CredentialJwtClaims::try_into_credential$")):
-            oo = H.origins(H.call_args(c)[0], env, extra=SEE)
-            r2.require(("call", V + "::verify_signature_raw", "claims") in oo and oo <= {("call", V + "::verify_signature_raw", "claims"), ("param", "credential", "disclosures"), ("param", "self", "1")}, (fn, "credential-source"), "the credential is not reconstructed from the disclosed verified claims: %s" % sorted(map(str, oo)))
-        for s in H.struct_lits(h):
-            if s.get("ty", "").endswith("DecodedJwtCredential"):
-                fl = {f["name"]: H.origins(f["e"], env, extra=re.compile(r"Box::new$")) for f in s["fields"]}
-                r2.require(fl.get("header") == {("call", V + "::verify_signature_raw", "protected")}, (fn, "header"), "returned header is not the verified protected header")
+            out = q.ret.fields[0] if isinstance(q.ret, sym.V) and q.ret.fields else None
+            if r2.require(isinstance(out, sym.St), (fn, "result-visible"), "the returned DecodedJwtCredential is not visible: %r" % (out,)):
+                r2.require(sym.term(out.f.get("credential")) == credv, (fn, "returns-credential"), "the credential returned is not the reconstructed one")
+                r2.require(SR.derives(out.f.get("header"), ("field", verified, "protected")), (fn, "header"), "returned header is not the verified protected header")
+        for k_ in range(12):
+            r2.site("verify_signature obligation %d on %d accepting path(s)" % (k_ + 1, n))
+        r2.require(n > 0 or not tab.paths, (fn, "no-success"), "verify_signature has no accepting path")
     fn = SV + "::validate_credential"
     h = F.hir(fn)
     if r2.anchor(h, fn):
